@@ -191,6 +191,14 @@ var probes = append([]string{"a.example.com.", "a-.example.com.", "a0.example.co
 // caseVariants: an existing owner and a name under a wildcard, in mixed case.
 var caseVariants = []string{"WWW.Example.COM.", "NX.W.EXAMPLE.COM."}
 
+// shortName abbreviates the names at the size limits for fingerprints (the replay holds the full name).
+func shortName(n string) string {
+	if len(n) <= 64 {
+		return n
+	}
+	return fmt.Sprintf("%s~%dlabels~%dbytes~%s", n[:8], strings.Count(n, "."), wireLen(n), n[len(n)-24:])
+}
+
 func uniq(a []int) []int {
 	out := a[:0]
 	for i, x := range a {
@@ -467,7 +475,7 @@ func main() {
 								continue
 							}
 							minimal++
-							fp := fmt.Sprintf("answer/%s/%s/%s/%s/%s/%s", b, kind, ids, name, tname(qt), clients[ci].ip)
+							fp := fmt.Sprintf("answer/%s/%s/%s/%s/%s/%s", b, kind, ids, shortName(name), tname(qt), clients[ci].ip)
 							detail := fmt.Sprintf("%s\nquery %s %s from %s on %s\nexpected: %s\nobserved: %s\ndata file:\n%s", v.detail, name, tname(qt), clients[ci].ip, b, describe(e, name), dnsfix.CanonResult(res), text)
 							if details != nil {
 								detailsMu.Lock()
